@@ -193,7 +193,7 @@ def b_abs(I, args, kw):
 
 def _minmax(I, args, kw, is_min):
     if len(args) == 1:
-        items = I.iter_conc(args[0])
+        items = _conc_iter(I, args[0])
     else:
         items = list(args)
     if not items:
